@@ -23,10 +23,11 @@ THEOREMS = ['Pyiga.Props.C18.' + t for t in (
     'truncTrace_shape', 'truncation_budget_partial',
     'squeeze_negative_axis_asCoded_wrong', 'pad_empty_axis_asCoded_raises',
     'faithful_nway_leaf', 'faithful_pad_leaf', 'operator_add', 'operator_neg', 'operator_sub', 'operator_T',
-    'generator_getitem', 'faithful_tucker_to_can')]
+    'generator_getitem', 'faithful_tucker_to_can',
+    'gta_extend_orthonormal', 'gta_extend_skip_rule', 'gta_extend_noskip_not_orthonormal')]
 MODULES = ['Pyiga.Model.Tensor', 'Pyiga.Proofs.TensorBasic', 'Pyiga.Proofs.TensorArith', 'Pyiga.Proofs.TensorOps',
            'Pyiga.Proofs.TensorAdd', 'Pyiga.Proofs.TensorAddSpec', 'Pyiga.Proofs.TensorNway', 'Pyiga.Proofs.TensorPad', 'Pyiga.Proofs.TensorOperator', 'Pyiga.Proofs.TensorGen',
-           'Pyiga.Proofs.TensorT2C', 'Pyiga.Props.C18']
+           'Pyiga.Proofs.TensorT2C', 'Pyiga.Proofs.TensorGreedy', 'Pyiga.Props.C18']
 
 SL = 'N'
 
@@ -462,7 +463,7 @@ def run(ctx):
     ctx.rule = ('operation sequences (<=8 steps: neg add sub getitem squeeze apply_tprod pad from_tensor truncate TensorSum TensorProd zeros/ones asarray) '
                 'on tensors of order 1-4 in all five formats with integer factors, incl. rank 0, singleton axes, mixed formats, malformed operands; '
                 'exhaustive 1-axis index expressions for n<=4 (ints -n-1..n, slices start/stop/step in None,-5..5), random multi-axis tuples with lists; '
-                'TensorGenerator getitem/asarray/matrix_at; find_truncation_rank on integer cores; aca/aca_lr with replayed restart stream on dyadic-exact '
+                'TensorGenerator getitem/asarray/matrix_at; find_truncation_rank on integer cores; greedy stream: gta/grou/gta_ls on ~100 small tensors whose mode sizes or multilinear ranks are below the number of greedy steps (time limit per case), rank decisions of gta replayed through the Lean skip rule; aca/aca_lr with replayed restart stream on dyadic-exact '
                 'rank-r matrices; CanonicalOperator algebra sequences; non-trivial = sequence step whose operand has order>=2 and rank>=1; distinct by request line')
     req, exp, meta = [], [], []
 
@@ -788,6 +789,7 @@ def run(ctx):
 
     known_probes(ctx)
     numeric_checks(ctx)
+    greedy_checks(ctx)
     ctx.extra['own_compute_s (after build/audit; excludes waiting for the shared lake lock)'] = round(_time.time() - _t_own, 1)
     ctx.assumptions += [
         'index lists are per-axis (orthogonal) selections as _normalize_indices defines them; with >=2 lists numpy pairs them instead (documented difference, not reported)',
@@ -908,3 +910,234 @@ def numeric_checks(ctx):
             ctx.violation('num-gta', 'gta reported error differs from the true error', {}, True)
         n_ok += 1
     ctx.extra['numeric_cases (evidence only, not proof)'] = n_ok
+
+
+# ----------------------------------------------------------------------------------------- greedy algorithms
+class _Timeout(Exception):
+    pass
+
+
+def _with_time_limit(seconds, fn):
+    """run fn() with a wall-clock limit (main thread); returns ('ok', value) | ('timeout', None) | ('exc', exception)"""
+    import signal
+    import warnings
+
+    def _alarm(signum, frame):
+        raise _Timeout()
+    old = signal.signal(signal.SIGALRM, _alarm)
+    signal.setitimer(signal.ITIMER_REAL, seconds)
+    try:
+        with warnings.catch_warnings():
+            warnings.simplefilter('ignore')
+            return 'ok', fn()
+    except _Timeout:
+        return 'timeout', None
+    except Exception as ex:
+        return 'exc', ex
+    finally:
+        signal.setitimer(signal.ITIMER_REAL, 0)
+        signal.signal(signal.SIGALRM, old)
+
+
+def _mlrank_tensor(rng, shape, ranks):
+    Us = [np.linalg.qr(rng.standard_normal((n, r)))[0] for (n, r) in zip(shape, ranks)]
+    return dense_tucker(Us, rng.standard_normal(ranks))
+
+
+def _orth_defect(Us):
+    return max(float(np.linalg.norm(U.T.dot(U) - np.eye(U.shape[1]))) for U in Us)
+
+
+def _replay_gta_bases(rec, thr=1e-14):
+    """the basis-extension loop of `gta` as coded (skip iff ny < 1e-14), replayed in the same float operations on
+    the recorded als1 outputs.  Returns (per-step norms, final ranks, a numerically-zero direction was appended)"""
+    U = [u[:, None] / np.linalg.norm(u) for u in rec[0]]
+    steps, zero_appended = [], False
+    for vs in rec[1:]:
+        nys = []
+        for j in range(len(U)):
+            y = vs[j] - U[j].dot(U[j].T.dot(vs[j]))
+            ny = np.linalg.norm(y)
+            nys.append(float(ny))
+            if ny < thr:
+                continue
+            if ny <= 1e-10 * np.linalg.norm(vs[j]):
+                zero_appended = True      # only rounding noise is left: should have been skipped (relative test)
+            U[j] = np.column_stack((U[j], y / ny))
+        steps.append(nys)
+    return steps, [u.shape[1] for u in U], zero_appended
+
+
+def greedy_checks(ctx):
+    """gta / grou / gta_ls on small tensors whose mode sizes or multilinear ranks are below the requested number of
+    greedy steps (incl. singleton axes): numerical evidence with a per-case time limit.  SVD/QR/ALS quality is a
+    parameter; what is checked is the contract of the greedy drivers: finite, non-increasing error history (up to
+    1e-8 relative + 1e-12*||A||), orthonormal bases (||U^T U - I|| <= 1e-6: a single Gram-Schmidt pass loses
+    eps*||v||/||y||, so this only trips when a numerically zero direction was normalised and appended), stop below the
+    tolerance or at the rank limit, reported error == true error against the dense expansion."""
+    from pyiga import tensor
+    import scipy.sparse as sp
+    from functools import reduce
+    rng = np.random.default_rng(ctx.seed + 2000)
+    quick = ctx.tier == 'quick'
+    LIMIT = 10.0
+    ntimeouts = 0
+    fixed = [((5, 6, 7), (3, 3, 3), 3), ((2, 6, 7), (2, 4, 4), 5), ((6, 2, 7), (4, 2, 4), 5), ((6, 7, 3), (5, 5, 3), 6),
+             ((5, 6, 7), (1, 3, 3), 4), ((4, 1, 5), (3, 1, 3), 4), ((3, 4, 2, 5), (3, 3, 2, 3), 4), ((1, 5), (1, 3), 3),
+             ((3, 3), (2, 2), 5)]
+    cases = [(sh, rk, R, 0) for (sh, rk, R) in fixed]
+    for _ in range(60 if quick else 600):
+        d = int(rng.integers(2, 4))
+        shape = tuple(int(rng.integers(1, 7)) for _ in range(d))
+        ranks = tuple(int(rng.integers(1, n + 1)) for n in shape)
+        cases.append((shape, ranks, int(rng.integers(2, 7)), int(rng.integers(-3, 1))))
+    # the same family at large magnitude: recorded finding `gta-skip-threshold-absolute`
+    for _ in range(25 if quick else 250):
+        d = int(rng.integers(2, 4))
+        shape = tuple(int(rng.integers(1, 7)) for _ in range(d))
+        ranks = tuple(int(rng.integers(1, n + 1)) for n in shape)
+        cases.append((shape, ranks, int(rng.integers(2, 7)), int(rng.integers(3, 5))))
+    ngta = 0
+    greq, gexp, gmeta = [], [], []
+    for ci, (shape, ranks, R, sc) in enumerate(cases):
+        A = _mlrank_tensor(rng, shape, ranks) * 10.0 ** sc
+        nA = float(np.linalg.norm(A.ravel()))
+        seed = int(rng.integers(0, 2 ** 31))
+        tol = float(10.0 ** rng.integers(-10, -1)) * nA
+        exhausted = any(min(n, r) < R for n, r in zip(shape, ranks))
+        replay = {'function': 'gta', 'A': A.tolist(), 'shape': list(shape), 'mlrank': list(ranks), 'R': R, 'tol': tol, 'rtol': 0.0,
+                  'np.random.seed': seed, 'scale': '1e%d' % sc}
+        np.random.seed(seed)
+        rec = []
+        orig_als1 = tensor.als1
+
+        def rec_als1(*a, **k):
+            r = orig_als1(*a, **k)
+            rec.append([np.array(x, dtype=float) for x in r])
+            return r
+        tensor.als1 = rec_als1
+        try:
+            st, val = _with_time_limit(LIMIT, lambda: tensor.gta(A, R, tol=tol, rtol=0.0, return_errors=True))
+        finally:
+            tensor.als1 = orig_als1
+        ctx.case(('gta', shape, ranks, R, sc, ci), nontrivial=exhausted)
+        ctx.count('gta exhausted-mode cases' if exhausted else 'gta generic cases')
+        ngta += 1
+        steps, sim_ranks, zero_appended = _replay_gta_bases(rec) if rec else ([], [1] * len(shape), False)
+        # failures of the property are attributed to the recorded finding only if the control flow is the modelled one
+        # (skip iff ny < 1e-14) and a direction with ny <= 1e-10*||v|| was appended; anything else is a new violation
+        key = 'gta-skip-threshold-absolute' if zero_appended else 'greedy:gta'
+        if st == 'timeout':
+            ctx.violation(key, 'gta did not terminate within %g s' % LIMIT, replay, True)
+            ntimeouts += 1
+            if ntimeouts >= 3:
+                ctx.count('gta stream stopped after 3 timeouts'); break
+            continue
+        if st == 'exc':
+            ctx.violation(key, 'gta raised %s: %s' % (type(val).__name__, str(val)[:100]), replay, True); continue
+        T, errs = val
+        errs = [float(e) for e in errs]
+        act_ranks = [int(U.shape[1]) for U in T.Us]
+        problems = []
+        if all(np.isfinite(n) for nys in steps for n in nys):
+            greq.append('gtaranks %s %s %s' % (frac(1e-14), plist([1] * len(shape)), plist(steps, lambda nys: plist(nys, frac))))
+            gexp.append(plist(act_ranks)); gmeta.append(replay)
+        if act_ranks != sim_ranks:
+            key = 'greedy:gta'
+            problems.append('ranks %s differ from the skip rule `ny < 1e-14` replayed on the same als1 outputs (%s): the basis '
+                            'extension does not follow the modelled control logic' % (act_ranks, sim_ranks))
+        if not all(np.isfinite(errs)):
+            problems.append('non-finite error history')
+        for i in range(len(errs) - 1):
+            if not errs[i + 1] <= errs[i] * (1 + 1e-8) + 1e-12 * nA:
+                problems.append('error increases at step %d: %.3e -> %.3e' % (i + 1, errs[i], errs[i + 1])); break
+        od = _orth_defect(T.Us)
+        if not od <= 1e-6:
+            problems.append('bases not orthonormal: ||U^T U - I|| = %.2e (ranks %s, mode sizes %s)' % (od, act_ranks, list(shape)))
+        D = dense_tucker(T.Us, T.X)
+        if not np.allclose(np.asarray(T.asarray()), D, rtol=0, atol=1e-12 * max(nA, 1e-300)):
+            problems.append('asarray() of the result differs from the dense expansion of (Us, X)')
+        te = float(np.linalg.norm((A - D).ravel()))
+        if not abs(te - errs[-1]) <= 1e-9 * nA:
+            problems.append('reported final error %.3e but the true error is %.3e' % (errs[-1], te))
+        if len(errs) > R or not (len(errs) == R or errs[-1] < tol):
+            problems.append('stopped after %d steps (R=%d) with error %.3e, tol %.3e' % (len(errs), R, errs[-1], tol))
+        if problems:
+            replay['errors'] = errs
+            ctx.violation(key, 'gta on a %s tensor of multilinear rank %s with R=%d: %s' % ('x'.join(map(str, shape)), ranks, R, '; '.join(problems)),
+                          replay, True)
+    # the skip rule of the basis extension: Lean model (gtaExtend) replayed on the recorded norms vs the ranks gta returned
+    got = ctx.model('drv_c18', greq)
+    nd = 0
+    for r, e, g, m in zip(greq, gexp, got, gmeta):
+        if e != g:
+            nd += 1
+            ctx.violation('ten-corr:gtaranks', 'ranks returned by gta (%s) differ from the modelled skip rule (%s)' % (e, g),
+                          {'request': r[:3000], 'implementation': e, 'model': g, 'case': m}, True)
+    ctx.obligation('correspondence stream greedy: %d gta runs, ranks == gtaExtend skip rule replayed on the recorded norms' % len(greq),
+                   nd == 0, '%d disagreements' % nd)
+    # grou: canonical rank below R
+    for _ in range(12 if quick else 120):
+        d = int(rng.integers(2, 4))
+        shape = tuple(int(rng.integers(1, 5)) for _ in range(d))
+        r = int(rng.integers(1, 3)); R = int(rng.integers(1, 5))
+        B = tensor.CanonicalTensor([rng.standard_normal((n, r)) for n in shape]).asarray()
+        nB = float(np.linalg.norm(B.ravel()))
+        tol = 1e-9 * nB
+        seed = int(rng.integers(0, 2 ** 31))
+        replay = {'function': 'grou', 'B': B.tolist(), 'R': R, 'tol': tol, 'np.random.seed': seed}
+        np.random.seed(seed)
+        st, val = _with_time_limit(LIMIT, lambda: tensor.grou(B, R, tol=tol, return_errors=True))
+        ctx.case(('grou', shape, r, R), nontrivial=r < R); ctx.count('grou cases')
+        if st != 'ok':
+            ctx.violation('greedy:grou', 'grou %s' % ('did not terminate within %g s' % LIMIT if st == 'timeout' else 'raised ' + type(val).__name__), replay, True); continue
+        X, errs = val
+        errs = [float(e) for e in errs]
+        problems = []
+        if not all(np.isfinite(errs)):
+            problems.append('non-finite error history')
+        if any(errs[i + 1] > errs[i] * (1 + 1e-8) + 1e-12 * nB for i in range(len(errs) - 1)):
+            problems.append('error history increases: %s' % errs)
+        if len(errs) > R or not (len(errs) == R or errs[-1] < tol):
+            problems.append('stopped after %d steps (R=%d) above the tolerance' % (len(errs), R))
+        if abs(float(np.linalg.norm((B - X.asarray()).ravel())) - errs[-1]) > 1e-9 * nB:
+            problems.append('reported error differs from the true error')
+        if problems:
+            ctx.violation('greedy:grou', 'grou: ' + '; '.join(problems), replay, True)
+    # gta_ls: orthonormal bases, finite result, exact solve when every basis is complete
+    for _ in range(14 if quick else 140):
+        d = int(rng.integers(2, 4))
+        shape = tuple(int(rng.integers(1, 5)) for _ in range(d))
+        R = int(rng.integers(1, 6))
+
+        def spd(n):
+            M = rng.standard_normal((n, n))
+            return sp.csr_matrix(M.dot(M.T) + n * np.eye(n))
+        Aop = [tuple(spd(n) for n in shape) for _ in range(2)]
+        F = rng.standard_normal(shape)
+        exhausted = any(n < R for n in shape)
+        key = 'gta_ls-no-skip' if exhausted else 'greedy:gta_ls'
+        seed = int(rng.integers(0, 2 ** 31))
+        replay = {'function': 'gta_ls', 'A': [[m.toarray().tolist() for m in t] for t in Aop], 'F': F.tolist(), 'R': R, 'np.random.seed': seed}
+        np.random.seed(seed)
+        st, val = _with_time_limit(LIMIT, lambda: tensor.gta_ls(Aop, tensor.TuckerTensor.from_tensor(F), R, tol=1e-10))
+        ctx.case(('gta_ls', shape, R), nontrivial=exhausted); ctx.count('gta_ls exhausted-mode cases' if exhausted else 'gta_ls generic cases')
+        if st != 'ok':
+            ctx.violation(key, 'gta_ls on shape %s with R=%d %s' % (shape, R, 'did not terminate within %g s' % LIMIT if st == 'timeout'
+                          else 'raised %s: %s' % (type(val).__name__, str(val)[:80])), replay, True); continue
+        UX = val
+        problems = []
+        sol = np.asarray(UX.asarray())
+        if not np.all(np.isfinite(sol)):
+            problems.append('non-finite solution')
+        od = _orth_defect(UX.Us)
+        if not od <= 1e-6:
+            problems.append('bases not orthonormal: ||U^T U - I|| = %.2e (ranks %s, mode sizes %s)' % (od, [U.shape[1] for U in UX.Us], list(shape)))
+        if not problems and all(U.shape[1] == U.shape[0] for U in UX.Us):
+            K = sum(reduce(np.kron, [m.toarray() for m in t]) for t in Aop)
+            res = float(np.linalg.norm(K.dot(sol.ravel()) - F.ravel())) / float(np.linalg.norm(F.ravel()))
+            if res > 1e-8:
+                problems.append('complete bases but residual %.2e' % res)
+        if problems:
+            ctx.violation(key, 'gta_ls on shape %s with R=%d: %s' % (shape, R, '; '.join(problems)), replay, True)
+    ctx.extra['greedy_cases (numerical evidence, time limit %gs per case)' % LIMIT] = ngta
